@@ -110,7 +110,7 @@ def gen(rng, tier, index):
         kw["n_to_select"] = int(rng.integers(3, 9))
     past = None
     if rng.random() < 0.3:  # the estimator was fitted before: other data of the same shape, another request
-        past = {"X": rng.normal(size=X.shape) * unit, "y": None if y is None else rng.normal(size=len(X)), "n": int(rng.integers(1, max(2, min(N, rank - 1)) + 1))}
+        past = {"X": forms.sibling_or(X, rng.normal(size=X.shape), unit), "y": None if y is None else rng.normal(size=len(X)), "n": int(rng.integers(1, max(2, min(N, rank - 1)) + 1))}
     if rng.random() < 0.12 and float(np.abs(X).max()) > 0:  # whole-number data (counts, grid indices) with an integer dtype
         X = np.round(X / float(np.abs(X).max()) * 40.0)
         spec["xint"] = gens.pick(rng, ("int64", "int32"))
